@@ -629,3 +629,33 @@ func init() {
 		c.Expect(2, n, "slice fields UnmarshalJSON requires")
 	})
 }
+
+func init() {
+	extendProp("C38", "A head change that skips reorg knows where the head header is: each function that calls writeHeadBlock behind the test `parent == CurrentBlock().Hash()` either consults the head header (CurrentHeader) before it, or writeHeadBlock itself removes canonical markers — otherwise markers between the head block and a head header that is ahead survive an import of a different child.", nil, func(c *Ctx) {
+		c.Rule("EFFECT/C38.lagginghead")
+		whb := c.Fn("core", "(*BlockChain).writeHeadBlock")
+		if whb == nil {
+			return
+		}
+		c.Funcs[whb] = true
+		cleans := reachesCall(whb, "core/rawdb.DeleteCanonicalHash", 1, map[*ssa.Function]bool{})
+		n := 0
+		for _, fn := range []string{"(*BlockChain).writeBlockAndSetHead", "(*BlockChain).writeKnownBlock", "(*BlockChain).SetCanonical"} {
+			f := c.TryFn("core", fn)
+			if f == nil {
+				continue
+			}
+			for _, s := range c.Calls(f, "(*core.BlockChain).writeHeadBlock") {
+				n++
+				consults := false
+				eachInstr(f, func(in ssa.Instruction) {
+					if ci, ok := in.(ssa.CallInstruction); ok && strings.HasSuffix(calleeName(ci.Common()), ".CurrentHeader") && instrReaches(in, s.Instr) {
+						consults = true
+					}
+				})
+				c.Check(cleans || consults, "head-header-consulted/"+fn, s.Pos(), "the head header takes part in the decision (or writeHeadBlock removes stale markers)", "the new head is written as a plain extension whenever its parent is the head block, without looking at the head header: if the header head is ahead (after SetHead to a stateless block or the start-up repair) the canonical markers above the new head keep pointing at the abandoned chain")
+			}
+		}
+		c.Expect(3, n, "writeHeadBlock call sites behind the parent test")
+	})
+}
